@@ -416,7 +416,7 @@ class Evaluator:
         return tuple(out)
 
     def allow_none(self, inst, cells):
-        if not inst.is_dynamic and cells.allow_none is not None:
+        if cells.allow_none is not None:
             return cells.allow_none
         i = inst
         while isinstance(i, Inst):
